@@ -72,6 +72,15 @@ def run(case):
             v = a[:, 1]
             v[1] = -9
         return {'a': a.tolist()}
+    if f == 'np_slice_store':
+        a = numpy.array([[10, 11], [20, 21], [30, 31], [40, 41]])
+        v = case['val']
+        a[case['lo']:case['hi']] = numpy.array(v) if isinstance(v, list) else v
+        return {'a': a.tolist()}
+    if f == 'np_mask_slice':
+        a = numpy.arange(12).reshape(3, 4)
+        m = numpy.array(case['mask'])
+        return {'r': (a[m, :case['stop']] if case['axis'] == 0 else a[:case['stop'], m]).tolist()}
     if f == 'np_diff':
         kw = {k: case[k] for k in ('prepend', 'append') if case[k] is not None}
         return {'d': numpy.diff(numpy.array(case['vals']), **kw).tolist()}
